@@ -7,7 +7,7 @@ stable=set(base['stable_pass'])
 log=open(sys.argv[1],errors='replace').read()
 passed=set(); failed=set(); cur=None
 for line in log.split('\n'):
-    m=re.match(r'\s*Running (?:unittests )?(\S+) \(target/debug/deps/([A-Za-z0-9_]+)-[0-9a-f]+\)',line)
+    m=re.match(r'\s*Running (?:unittests )?(\S+) \(\S*?/deps/([A-Za-z0-9_]+)-[0-9a-f]+\)',line)
     if m:
         cur=m.group(2); continue
     m=re.match(r'\s*Doc-tests (\S+)',line)
